@@ -486,6 +486,50 @@ def r10(db, rep, runs):
                  "HS/LO/HI/LS with the architectural meaning, so `cmp x0, x1; b.hs` is taken exactly when x0 <u x1" % ilshape.show_e(e))
 
 
+def r11(db, rep):
+    import bitprov
+    r = rep.rule("R11", "K9", "no flag of ADDS/SUBS is a constant: for the 32-bit and the 64-bit register and immediate forms the term "
+                 "assigned to each of n, z, c, v is evaluated in the bit-provenance domain (sums of zero-extended operands carry "
+                 "into bit w, differences sign-extend their borrow); a flag whose bit is the constant 0 or 1 for an accepted form "
+                 "is wrong (e.g. a carry taken from a fixed bit position above a 32-bit sum)")
+    sh = ilshape.Shape(db)
+    OP = "bad64::Operand::"
+    NONE = "std::prelude::v1::None"
+    for nm in ("adds", "subs"):
+        f = "translator::aarch64::semantics::" + nm
+        rep.anchor(f in db.hir, f)
+        for W in (32, 64):
+            for imm in (False, True):
+                a = {}
+                for k in (0, 1, 2):
+                    pth = "param1.operands()[%d]" % k
+                    if k == 2 and imm:
+                        a[("obj", pth)] = OP + "Imm64"
+                        a[("obj", pth + ".shift")] = NONE
+                    else:
+                        a[("obj", pth)] = OP + "Reg"
+                        a[("obj", pth + ".arrspec")] = NONE
+                        a[("bits", "a64reg:%s.reg" % pth)] = W
+                res = sh.run(f, assume=a)
+                bitprov.ASSUME = a
+                const_flags = []
+                seen = set()
+                for o in res.ops:
+                    if o["kind"] == "Assign" and o.get("dst") in FLAGS:
+                        seen.add(o["dst"])
+                        b = bitprov.bits(o["src"])
+                        if b in ([0], [1]):
+                            const_flags.append((o["dst"], b[0], o["line"]))
+                bitprov.ASSUME = {}
+                key = "aarch64|%s|%d|%s" % (nm.upper(), W, "imm" if imm else "reg")
+                if seen != FLAGS:
+                    r.open(key, db.where(db.hir[f]), "flag assignments not found for this form (%s)" % sorted(seen))
+                    continue
+                r.decide(not const_flags, key, db.where(db.hir[f], const_flags[0][2]) if const_flags else db.where(db.hir[f]),
+                         "%s with %d-bit operands: flag %s is the constant %s" % (
+                             nm, W, const_flags[0][0] if const_flags else "", const_flags[0][1] if const_flags else ""))
+
+
 def run(db, rep, feat, tier):
     rep.explanation = (
         "Static rules over the HIR of lib/translator/aarch64/**. The register table is compared row by row with the class "
@@ -513,6 +557,7 @@ def run(db, rep, feat, tier):
     c05.r6(db, rep, ("aarch64",), "R8b")
     r9(db, rep, hb, disp)
     r10(db, rep, runs)
+    r11(db, rep)
 
 
 MANIFEST = {
